@@ -508,6 +508,26 @@ pub fn run(tier: Tier) {
     let off = ctx.seed.wrapping_mul(4096);
     let s512: Vec<u64> = if tier.thorough() { (0..8).map(|i| off + i).chain([785]).collect() } else { vec![off, 785] };
     let s1024: Vec<u64> = if tier.thorough() { vec![off, off + 1, 14] } else { vec![off] };
+    // the parameter table the signer reads (sigma, sigma_min) against the specification's Table 3.3
+    {
+        let mut part = Part::new("parameter_table", "sigma and sigma_min of both variants as the library's parameter table holds them, against the specification (Table 3.3)");
+        for n in [512usize, 1024] {
+            let (pn, psigma, psigmin, _pbound, _plen) = fh::parameters(n);
+            part.states += 1;
+            part.transitions += 1;
+            part.validated += 1;
+            if pn != n || psigma != sigma(n) || psigmin != sigma_min(n) {
+                ctx.violation(
+                    format!("parameter-table:n={}", n),
+                    format!("the parameter table for n = {} holds sigma = {}, sigma_min = {} but the specification gives sigma = {}, sigma_min = {}", n, psigma, psigmin, sigma(n), sigma_min(n)),
+                    json!({"kind":"parameters","variant":n}),
+                );
+            }
+            part.outcome(format!("n={} sigma={} sigma_min={}", n, psigma, psigmin));
+        }
+        part.exhaustive = true;
+        ctx.add_part(part);
+    }
     key_part::<V512>(&mut ctx, tier, &s512);
     key_part::<V1024>(&mut ctx, tier, &s1024);
     let full: Vec<(usize, u8)> = vec![(0, 0), (0, 1), (1, 0), (1, 1), (2, 0), (2, 1)];
@@ -527,6 +547,11 @@ pub fn run(tier: Tier) {
 
 pub fn replay(case: &Value) -> Result<Option<String>, String> {
     let kind = case.get("kind").and_then(|k| k.as_str()).ok_or("no kind")?;
+    if kind == "parameters" {
+        let n = case.get("variant").and_then(|x| x.as_u64()).ok_or("variant")? as usize;
+        let (_, psigma, psigmin, _, _) = fh::parameters(n);
+        return Ok(if psigma != sigma(n) || psigmin != sigma_min(n) { Some("parameter table differs from the specification".into()) } else { None });
+    }
     if kind == "small" {
         return Err("re-run ./vf check C10 (small scope is enumerated deterministically)".into());
     }
